@@ -29,7 +29,7 @@ TRUSTED = [
     "Model/C16.lean is a hand transcription of comp_basis.py / bit.py / state.py / state_vector.py, tied to the working tree "
     "by the correspondence runs of this harness (real objects vs DriverC16.lean, exact strings / integers / affine angle forms)",
     "exact-ring reflection (Found/Poly.lean): a Poly identity in u=ζ16, x0=e^{iθ/2}, x1=e^{iφ/2} holds for all real θ, φ; "
-    "soundness w.r.t. ℂ is by construction of the ring operations, not separately formalised",
+    "soundness w.r.t. ℂ is proved (Proof/PolySound eval_add / eval_mul; Props/Reflect instantiates ζ = exp(iπ/8), xⱼ = exp(iφⱼ/2); obligations of C01)",
     "the rewriting semantics `stepS` of X / all-X PauliRotation / RZ is a definition; it is kernel-checked against the dense "
     "embedding semantics of Found/Gate.lean on ≤ 3 qubits and validated every run against numpy (oracle/c16_state.py) on ≤ 6 qubits",
     "the Pauli matrices of `pauliMat` are the documented ones (kernel-checked equal to Found/Gate.lean's localMat)",
